@@ -220,6 +220,20 @@ def extra(rep, tier, seed, budget):
     # checked by a bounded stand-in on the real function (labelled bounded, not counted as proved)
     from bounded import author_options
     author_options.integrate(rep)
+    # job.settings.bypass_build_status is an input of the gate as well: it must come from THIS pull request's
+    # comments - every job starts from the registered defaults and shares no mapping with another job
+    from specs import shared_facts as _sf
+    from pyvc.cli import write_replay
+    for what, ok, data in _sf.jobs_do_not_share_settings() + _sf.init_settings_resets_options():
+        rep.obligations += 1
+        if ok:
+            rep.discharged += 1
+            rep.by_backend.setdefault('python-fact', {'count': 0, 'seconds': 0.0})['count'] += 1
+        else:
+            key = 'fact:%s' % what
+            rep.violations.append({'key': key, 'what': what, 'replay': write_replay(rep.pid, key, {'fact': what, 'data': data}),
+                                   'input': data, 'noinput': False})
+    rep.facts.append({'fact': 'per-job option state (Job settings mapping, Reactor.init_settings)', 'checked': 2})
 
 
 def replay_file(data):
